@@ -65,7 +65,15 @@ def _one(args):
             sig0 = {"moment": kind, "control": hc, "ratio_is_one": ratio[0] == ratio[1]}
             detail = {**detail0, "moment": kind, "ratio": ratio}
             try:
-                m = M.load(M.make_moment(kind, ratio), d, hc)
+                m = M.make_moment(kind, ratio)
+                if (rq + n) % 2 == 1 and n > 1:
+                    # the same moment object was loaded before with the same rows in ANOTHER order and already asked for signed weights
+                    d0 = M.materialise(case, seed, 2)
+                    M.load(m, d0, hc)
+                    if len(m.index):
+                        m.signed_weights(pd.Series(1.0, index=m.index))
+                        m.gamma(M.vec_predictor(np.zeros(n)))
+                m = M.load(m, d, hc)
                 if set(m.index) != set(keys):
                     continue        # C06's business
                 nev += 1
